@@ -59,22 +59,94 @@ _SIZES = {
     # are a corner case of their own (geometry comparison), non-square cases come from the others
     "kl": {"dom": [(6, 4), (5, 5)], "rng": [(4, 3), (5, 5)]},           # (N grid nodes, modes)
     "step": {"dom": [(7, 3), (9, 4)], "rng": [(4, 2), (9, 4)]},         # (N grid nodes, steps)
+    "step_n": {"dom": [(7, 2), (9, 3)], "rng": [(4, 3), (9, 3)]},       # the same grids, another number of steps
+    "klfull": {"dom": [5, 6]},                                          # N grid nodes = number of parameters
+    "ckl": {"dom": [(6, 3), (7, 2)]},                                   # (N grid nodes, truncation)
+    "ckl_trunc": {"dom": [(6, 2), (7, 3)]},                             # the same grids, another truncation
     "user": {"dom": [3, 4], "rng": [3, 4]},                             # par dim; fun dim = n + 1
 }
+
+# ---- hidden constructor options ------------------------------------------------------------------
+# Kinds "<family>[_<option variant>][_grad]" of the expansion geometries.  All variants of a family share the coarse
+# shape of the family's base kind (same role and size variant -> same grid, same number of modes / steps); they differ
+# in ONE hidden constructor option each (options that neither the parameter nor the function shape shows):
+#   kl      KLExpansion(grid, decay_rate, normalizer, num_modes)    base (1.5, 2.0) | decay: 2.25 | norm: 0.5
+#   klfull  KLExpansion_Full(grid, std, cor_len, nu)                base (1.0, 0.2, 3.0) | std: 1.5 | cor: 0.5 | nu: 1.5
+#   ckl     CustomKL(grid, mean, std, cov_func, trunc_term)         base (0, 1, exponential kernel of length 2) |
+#                                                                   mean: 0.5 | cov: length 1 | amp: std 1.5 (kernel
+#                                                                   amplitude std^2) | trunc: another truncation, same grid
+#   step    StepExpansion(grid, n_steps, fun2par_projection)        base 'mean' | max | min | n: another n_steps, same grid
+# (MappedGeometry: the map alphabet above shares bases and sizes; Image2D: image2d_C / image2d_F share the sizes.)
+# klfull and ckl have no fun2par in the library: domain geometries only, no adjoint into them, no equal-copy range.
+KL_OPTS = {"": (1.5, 2.0), "decay": (2.25, 2.0), "norm": (1.5, 0.5)}
+KLFULL_OPTS = {"": (1.0, 0.2, 3.0), "std": (1.5, 0.2, 3.0), "cor": (1.0, 0.5, 3.0), "nu": (1.0, 0.2, 1.5)}
+CKL_OPTS = {"": (0.0, 1.0, 2.0), "mean": (0.5, 1.0, 2.0), "cov": (0.0, 1.0, 1.0), "amp": (0.0, 1.5, 2.0),
+            "trunc": (0.0, 1.0, 2.0)}                                   # (mean, std, kernel length)
+STEP_OPTS = {"": "mean", "max": "max", "min": "min", "n": "mean"}
+_OPT_TABLES = {"kl": KL_OPTS, "klfull": KLFULL_OPTS, "ckl": CKL_OPTS, "step": STEP_OPTS}
+# option kinds beyond the original catalogue (kl, kl_grad, step, step_grad), per role
+OPT_DOM_KINDS = ["kl_decay_grad", "kl_norm",
+                 "klfull", "klfull_std", "klfull_cor_grad", "klfull_nu",
+                 "ckl", "ckl_mean", "ckl_cov_grad", "ckl_amp", "ckl_trunc",
+                 "step_max", "step_min", "step_n"]
+OPT_RNG_KINDS = ["kl_decay", "kl_norm", "step_max", "step_min", "step_n"]
+# history facet: (kind of the model under test, kind of the decoy) - a star around the base kind of every family, both
+# directions; the two kinds of a pair share role and size variant, hence the coarse shape (step_n / ckl_trunc: the grid)
+_STARS_DOM = [("kl", ["kl_decay", "kl_norm"]), ("klfull", ["klfull_std", "klfull_cor", "klfull_nu"]),
+              ("ckl", ["ckl_mean", "ckl_cov", "ckl_amp", "ckl_trunc"]), ("step", ["step_max", "step_min", "step_n"]),
+              ("image2d_C", ["image2d_F"]), ("mapped", ["map_cs_c1"]), ("map_cs_imgF", ["map_perm_imgF"])]
+_STARS_RNG = [("kl", ["kl_decay", "kl_norm"]), ("step", ["step_max", "step_min", "step_n"]),
+              ("image2d_C", ["image2d_F"]), ("mapped", ["map_mix_c1"]), ("map_cs_imgC", ["map_mix_imgC"])]
+
+
+def _pairs(stars):
+    out = []
+    for base, variants in stars:
+        for v in variants:
+            out += [(base, v), (v, base)]
+    return out
+
+
+HISTORY_PAIRS = {"dom": _pairs(_STARS_DOM), "rng": _pairs(_STARS_RNG)}
+# interleavings of the decoy's life (D built, d evaluated) with the model's (M built, m first evaluated), all before the
+# judged batteries: every order of the four events with D before d and M before m
+HISTORY_ORDERS = ["DdMm", "DMdm", "DMmd", "MDdm", "MDmd", "MmDd"]
+HISTORY_ORDERS_QUICK = ["DdMm", "MmDd"]
+HISTORY_MODELS_QUICK = ["jac", "lin_fun"]
+HISTORY_MODELS = ["jac", "nograd", "lin_mat", "lin_fun", "lin_fun_T", "pde_poisson_jac"]
+OPT_MODELS_QUICK = ["jac", "nograd", "lin_mat", "lin_fun", "lin_fun_T", "pde_poisson_jac"]
+
+
+def parse_opt_kind(kind):
+    """('kl', 'decay', has_gradient) of 'kl_decay_grad'; None for kinds without option variants."""
+    parts = kind.split("_")
+    if parts[0] not in _OPT_TABLES:
+        return None
+    grad = parts[-1] == "grad"
+    if grad:
+        parts = parts[:-1]
+    variant = "_".join(parts[1:])
+    if variant not in _OPT_TABLES[parts[0]]:
+        raise ValueError(kind)
+    return parts[0], variant, grad
+
+
+def has_fun2par(kind):
+    ok = parse_opt_kind(kind)
+    return ok is None or ok[0] not in ("klfull", "ckl")
 
 
 def _family(kind):
     mk = parse_map_kind(kind)
     if mk is not None:
         return "1d" if mk[1] == "c1" else "2d"
+    ok = parse_opt_kind(kind)
+    if ok is not None:
+        return ok[0] + "_" + ok[1] if (ok[0] + "_" + ok[1]) in _SIZES else ok[0]
     if kind in ("default1d", "cont1d", "discrete", "mapped", "mapped_grad"):
         return "1d"
     if kind in ("default2d", "cont2d", "image2d_C", "image2d_F", "image2d_vis"):
         return "2d"
-    if kind in ("kl", "kl_grad"):
-        return "kl"
-    if kind in ("step", "step_grad"):
-        return "step"
     return "user"
 
 
@@ -231,6 +303,37 @@ def _ref_maps(mname, n0, k):
     raise ValueError(mname)
 
 
+def _ref_nystrom(grid, std, length, trunc, gauge):
+    """Dense reference of the truncated KL basis  Phi diag(sqrt(lambda))  (N x trunc) of the kernel
+    std^2 exp(-|x-y|/length) on the grid's interval [0, L] by the Nystrom method with 2*trunc Gauss-Legendre nodes.
+    The sign of an eigenvector is a gauge freedom: each column is given the sign of the library's (`gauge`)."""
+    import math
+    ngl = 2 * trunc
+    half = 0.5 * (float(grid[-1]) - float(grid[0]))
+    xi, w = np.polynomial.legendre.leggauss(ngl)
+    xs = [half * float(t) + half for t in xi]
+    ws = [half * float(t) for t in w]
+
+    def kern(x, y):
+        return std * std * math.exp(-abs(x - y) / length)
+    A = np.zeros((ngl, ngl))
+    for i in range(ngl):
+        for j in range(ngl):
+            A[i, j] = math.sqrt(ws[i]) * kern(xs[i], xs[j]) * math.sqrt(ws[j])
+    lam, H = np.linalg.eigh(A)
+    order = sorted(range(ngl), key=lambda i: -lam[i])[:trunc]
+    B = np.zeros((len(grid), trunc))
+    for c, q in enumerate(order):
+        for t in range(len(grid)):
+            acc = 0.0
+            for j in range(ngl):
+                acc += kern(float(grid[t]), xs[j]) * math.sqrt(ws[j]) * H[j, q]
+            B[t, c] = acc / lam[q] * math.sqrt(lam[q])
+        if gauge.shape == B.shape and float(np.dot(gauge[:, c], B[:, c])) < 0:
+            B[:, c] = -B[:, c]
+    return B
+
+
 def _reshaping_index(n1, n2, order):
     """image[i, j] = p[idx[i, j]], p[q] = image.reshape(-1)[inv[q]]  (explicit index arithmetic)."""
     idx = np.empty((n1, n2), dtype=int)
@@ -251,8 +354,10 @@ class RefGeom:
         self.kind, self.role = kind, role
         size = size_of(kind, role, variant)
         self.size = size
-        self.has_gradient = kind in ("mapped_grad", "kl_grad", "step_grad", "user")
+        self.has_gradient = kind.endswith("_grad") or kind == "user"
+        self.has_f2p = has_fun2par(kind)
         fam = _family(kind)
+        ok = parse_opt_kind(kind)
         self.arg = None        # what is passed to the model constructor (int/tuple for defaults)
         self._index = None     # index image of a reshaping (base) geometry
         mk = parse_map_kind(kind)
@@ -324,9 +429,9 @@ class RefGeom:
                 self._index = idx
                 self._p2f = lambda p, idx=idx: np.asarray(p)[idx]
                 self._f2p = lambda f, inv=inv: np.asarray(f).reshape(-1)[inv]
-        elif fam == "kl":
+        elif ok is not None and ok[0] == "kl":
             N, modes = size
-            gamma, tau = 1.5, 2.0
+            gamma, tau = KL_OPTS[ok[1]]
             self.n, self.fshape = modes, (N,)
             Bfull = np.zeros((N, N))
             for K in range(N):
@@ -339,11 +444,46 @@ class RefGeom:
             P = np.linalg.inv(Bfull)[:modes, :]
             self.B = B
             self.arg = G.KLExpansion(np.arange(N, dtype=float), decay_rate=gamma, normalizer=tau, num_modes=modes)
-            if kind == "kl_grad":
+            if ok[2]:
                 self.arg.gradient = lambda direction, wrt, B=B: B.T @ direction
             self._p2f, self._f2p = (lambda p: B @ p), (lambda f: P @ f)
-        elif fam == "step":
+        elif ok is not None and ok[0] == "klfull":
+            # documented: f_K = std^2/pi * [ sum_{i<N-1} c_i p_i sin(pi/N (i+1)(K+1/2)) + (-1)^K/2 c_{N-1} p_{N-1} ],
+            # c_i = (tau/(tau+i^2))^gamma, tau = 1/cor_len^2, gamma = nu+1
+            N = size
+            std, cor_len, nu = KLFULL_OPTS[ok[1]]
+            tau2, gam = 1.0 / (cor_len * cor_len), nu + 1.0
+            self.n, self.fshape = N, (N,)
+            B = np.zeros((N, N))
+            for K in range(N):
+                for i in range(N):
+                    c = (tau2 / (tau2 + i * i)) ** gam
+                    if i < N - 1:
+                        B[K, i] = std * std / np.pi * c * np.sin(np.pi / N * (i + 1) * (K + 0.5))
+                    else:
+                        B[K, i] = std * std / np.pi * c * 0.5 * (-1) ** K
+            self.B = B
+            self.arg = G.KLExpansion_Full(np.arange(N, dtype=float), std=std, cor_len=cor_len, nu=nu)
+            if ok[2]:
+                self.arg.gradient = lambda direction, wrt, B=B: B.T @ direction
+            self._p2f, self._f2p = (lambda p: B @ p), None
+        elif ok is not None and ok[0] == "ckl":
+            # truncated KL expansion of a covariance kernel by the Nystrom method (2*trunc Gauss-Legendre nodes on the
+            # grid's interval, which starts at 0): f = mean + Phi diag(sqrt(lambda)) p
+            N, trunc = size
+            mean, std, length = CKL_OPTS[ok[1]]
+            self.n, self.fshape = trunc, (N,)
+            grid = 0.5 * np.arange(N)
+            self.arg = G.CustomKL(grid, mean=mean, std=std, trunc_term=trunc,
+                                  cov_func=lambda x, y, s=std, l=length: s ** 2 * np.exp(-abs(x - y) / l))
+            B = _ref_nystrom(grid, std, length, trunc, np.asarray(self.arg.eigvec, dtype=float))
+            self.B = B
+            if ok[2]:
+                self.arg.gradient = lambda direction, wrt, B=B: B.T @ direction
+            self._p2f, self._f2p = (lambda p: mean + B @ p), None
+        elif ok is not None and ok[0] == "step":
             N, steps = size
+            proj = STEP_OPTS[ok[1]]
             self.n, self.fshape = steps, (N,)
             S = np.zeros((N, steps))
             for t in range(N):          # integer grid 0..N-1: node t in step i iff i(N-1) < t*steps <= (i+1)(N-1)
@@ -352,10 +492,23 @@ class RefGeom:
                         S[t, i] = 1.0
             cnt = S.sum(axis=0)
             self.S = S
-            self.arg = G.StepExpansion(np.arange(N, dtype=float), n_steps=steps)
-            if kind == "step_grad":
+            self.arg = G.StepExpansion(np.arange(N, dtype=float), n_steps=steps, fun2par_projection=proj)
+            if ok[2]:
                 self.arg.gradient = lambda direction, wrt, S=S: S.T @ direction
-            self._p2f, self._f2p = (lambda p: S @ p), (lambda f: (S.T @ f) / cnt)
+            if proj == "mean":
+                f2p = lambda f: (S.T @ f) / cnt
+            else:
+                def f2p(f, S=S, proj=proj):
+                    out = np.zeros(S.shape[1])
+                    for i in range(S.shape[1]):
+                        vals = [float(f[t]) for t in range(S.shape[0]) if S[t, i] == 1.0]
+                        best = vals[0]
+                        for v in vals[1:]:
+                            if (proj == "max" and v > best) or (proj == "min" and v < best):
+                                best = v
+                        out[i] = best
+                    return out
+            self._p2f, self._f2p = (lambda p: S @ p), f2p
         else:  # user
             n = size
             W = refs.full_matrix(n + 1, n, k + 1) * 0.5
@@ -378,6 +531,8 @@ class RefGeom:
         return self._p2f(np.asarray(p, dtype=float))
 
     def f2p(self, f):
+        if self._f2p is None:
+            raise AssertionError("harness: the geometry kind %s has no function-to-parameter map" % self.kind)
         return self._f2p(np.asarray(f, dtype=float))
 
 
